@@ -20,7 +20,7 @@ RULE = ('deals by seeded permutation incl. forced voids and 7-13 card suits, par
 REQUIRED_COUNTERS = {t: ['void', 'long_suit', 'partial_deal', 'malformed_pbn', 'backtracking_field', 'overlap_vectors']
                      for t in ('quick', 'thorough')}
 TRUSTED = ['the MiniPy semantics (Model/MiniPy.lean: value semantics, no aliasing) and the code translator (harness/translate_py.py), validated on every run by executing the translated program next to the real code (counters translated_*)',
-           're.match on DEAL_PATTERN / HAND_PATTERN is replaced by a hand-written backtracking scanner (compared on the stated strings)',
+           're.match on DEAL_PATTERN / HAND_PATTERN: the hand-written scanners of Model/Hands.lean are PROVED equal, on every subject string (HAND_PATTERN: without a line feed), to the generic regex engine of Model/Regex.lean on the pattern texts of the source (Lemmas/RegexHands.lean, Props/Regex.lean); what remains assumed is that this engine is CPython\'s re on the subset (differential-tested on every C19 run)',
            'random.shuffle is a parameter: the theorem is for every permutation of the pack']
 ASSUMPTIONS = ['CPython sorted / set / str.join', 'numpy zeros / fancy index assignment / where on 52-vectors']
 SEATS = 'NESW'
